@@ -235,6 +235,17 @@ def check_expectation_values(ctx):
     rets = returned_exprs(fi.node)
     ok = len(rets) == 1 and isinstance(rets[0], ast.Call) and dotted(rets[0].func) == "ExpectationValues" and len(rets[0].args) == 3 and norm(rets[0].args[0]) == values_name and norm(rets[0].args[1]) == f"[{corr}]" and cov and norm(rets[0].args[2]) == f"[{next((nm for nm, vs in d.defs.items() if cov[0] in vs), '?')}]"
     ctx.check(bool(ok), R2, fi.key + ":result", "ExpectationValues(values, [correlations], [covariances])", f"result {short(rets[0]) if rets else '?'} does not carry the three computed quantities in their slots", fi)
+    # what is reported is the computed statistic itself: no entry of the value / covariance arrays is overwritten
+    # afterwards (clipping, snapping to zero within a tolerance, rounding change the reported sample statistic)
+    cov_name = next((nm for nm, vs in d.defs.items() if cov and cov[0] in vs), None)
+    tampered = []
+    for n in body_walk(fi.node):
+        if isinstance(n, ast.Subscript) and isinstance(n.ctx, ast.Store) and isinstance(n.value, ast.Name) and n.value.id in (cov_name, values_name) and cov:
+            if getattr(n, "lineno", 0) > getattr(cov[0], "lineno", 0):
+                tampered.append(n)
+        if isinstance(n, ast.Call) and (dotted(n.func) or "").split(".")[-1] in ("clip", "round", "around", "fill", "putmask", "place", "nan_to_num") and any(isinstance(a, ast.Name) and a.id in (cov_name, values_name) for a in list(n.args) + [getattr(n.func, "value", None)]):
+            tampered.append(n)
+    ctx.check(not tampered, R2, fi.key + ":reported-as-computed", "values and covariances are reported as computed", f"`{short(tampered[0]) if tampered else ''}` overwrites entries of the computed statistics before they are returned: e.g. snapping with np.isclose (absolute tolerance 1e-8) zeroes genuine covariances of order c_i*c_j/N", f"{fi.module.relpath}:{tampered[0].lineno}" if tampered else fi)
 
 
 def check_frequencies(ctx):
